@@ -304,6 +304,13 @@ def check_read(c, ev, res, spec_c, order):
     out = []
     ins = list(a[0])
     expect_ok = ev[0] == "ok"
+    # res is TLC's exact result, or ("float", payload) from the evaluator (ev_reads) for continuous parameters
+    flt = isinstance(res, tuple) and len(res) == 2 and res[0] == "float"
+    if flt:
+        res = (1, res[1]) if name != "simulate" else res[1]
+
+    def P(num, L):
+        return float(num) if flt else exact_prob(num, L)
 
     def state(x):
         return lw.State(list(x))
@@ -314,7 +321,7 @@ def check_read(c, ev, res, spec_c, order):
             if not expect_ok:
                 return [("input_not_rejected", "Simulator.simulate accepted the invalid input %s" % (ins,))]
             got = {tuple(o.s): r.array[0, j] for j, o in enumerate(r.outputs)}
-            exp = {tuple(o): ring.to_complex(v[0]) / np.sqrt(v[1]) for o, v in res.items()}
+            exp = {tuple(o): (complex(v) if flt else ring.to_complex(v[0]) / np.sqrt(v[1])) for o, v in res.items()}
             if set(got) != set(exp):
                 return [("sim_outputs", "outputs %s, expected %s" % (sorted(got), sorted(exp)))]
             for o in exp:
@@ -331,7 +338,7 @@ def check_read(c, ev, res, spec_c, order):
                 full = [0] * c.n_modes
                 for si, pos in enumerate(order):
                     full[pos] = pat[si]
-                exp[tuple(full)] = exact_prob(num, L)
+                exp[tuple(full)] = P(num, L)
             dists = {}
             for b in ("permanent", "slos"):
                 d = emu.Sampler(c, state(ins), backend=emu.Backend(b)).probability_distribution
@@ -365,7 +372,7 @@ def check_read(c, ev, res, spec_c, order):
                 return out
             r = an.analyze(state(ins))
             got = {tuple(o.s): r.array[0, j] for j, o in enumerate(r.outputs)}
-            exp = {tuple(o): exact_prob(v, L) for o, v in table.items()}
+            exp = {tuple(o): P(v, L) for o, v in table.items()}
             if set(got) != set(exp):
                 return [("analyzer_outputs", "analyzer outputs %s, expected %s" % (sorted(got), sorted(exp)))]
             for o in exp:
@@ -377,6 +384,13 @@ def check_read(c, ev, res, spec_c, order):
             # error rate against the first accepted output as the expected one
             first = sorted(exp)[0]
             tot = sum(exp.values())
+            if tot > 1e-9 and len(exp) >= 3:
+                # several expected outputs for one input
+                two = sorted(exp)[:2]
+                r3 = an.analyze(state(ins), expected={state(ins): [lw.State(list(o)) for o in two]})
+                er2 = 1 - (exp[two[0]] + exp[two[1]]) / tot
+                if abs(r3.error_rate - er2) > 1e-8:
+                    out.append(("error_rate", "error_rate %.9g with two expected outputs, expected %.9g" % (r3.error_rate, er2)))
             if tot > 1e-9:
                 r2 = an.analyze(state(ins), expected={state(ins): lw.State(list(first))})
                 er = 1 - exp[first] / tot
@@ -385,7 +399,7 @@ def check_read(c, ev, res, spec_c, order):
         elif name == "quick":
             L, table = res
             table = table if isinstance(table, dict) else {}
-            exp = {tuple(o): exact_prob(v, L) for o, v in table.items()}
+            exp = {tuple(o): P(v, L) for o, v in table.items()}
             exp = {o: p for o, p in exp.items() if p > 1e-9}
             kw = dict(photon_counting=a[2])
             pso = ps_object(a[1])
